@@ -253,9 +253,7 @@ func main() {
 			defer wg.Done()
 			defer func() { <-sem }()
 			r.execute()
-			if r.Err == "" {
-				r.discharge(qTimeout, 8)
-			}
+			r.discharge(qTimeout, 8) // (after an engine error: the obligations recorded before it)
 			r.refuteWithoutContracts()
 			n := atomic.AddInt64(&done, 1)
 			if verbose {
@@ -312,10 +310,8 @@ func main() {
 			nOb++
 			nInc++
 			inconcl = append(inconcl, fmt.Sprintf("obligation=%s reason=engine: %s", r.Name, r.Err))
-			nativeFallback(r)
-			continue
 		}
-		allOK := true
+		allOK := r.Err == ""
 		runRefuted := false
 		for _, ob := range r.Obs {
 			if ob.Verdict == "refuted" {
@@ -372,6 +368,17 @@ func main() {
 						}
 						rr := replayNative(cx, path, search)
 						note = " replay=" + rr.Status
+						if rr.Status != "reproduced" && cx.Abstract {
+							// the model fixes intermediate results the real code may not produce: transplant them
+							if ob2 := r.concretiseAbstract(ob); ob2 != nil {
+								cx2 := writeCex(path, *prop, r, ob2)
+								cx2.Abstract = false
+								if rr2 := replayNative(cx2, path, 0); rr2.Status == "reproduced" {
+									rr = rr2
+									note = " replay=reproduced(" + ob2.Solver + ")"
+								}
+							}
+						}
 						if rr.Status != "reproduced" {
 							nRef--
 							nInc++
@@ -406,7 +413,7 @@ func main() {
 		if allOK && r.Proved != "" {
 			contractsProved[r.Ld.config+":"+r.Proved] = true
 		}
-		runInc := false
+		runInc := r.Err != ""
 		for _, ob := range r.Obs {
 			if ob.Verdict == "inconclusive" && ob.Kind != "reach" {
 				runInc = true
